@@ -41,6 +41,22 @@ Proof. exact partition_parent_full_index_ok. Qed.
 Theorem C17_current_source_accepts_inprocess_parents : partition_inprocess_parent = Some true.
 Proof. exact partition_inprocess_parent_ok. Qed.
 
+(** a stored partition handed on unchanged by another memento function: its new copy reads the same *)
+Theorem C17_relay_lookup : forall t k, NoDup (map fst t) -> ilookup k (relay_index true t) = ilookup k t.
+Proof. exact relay_lookup. Qed.
+Print Assumptions C17_relay_lookup.
+
+Theorem C17_relay_of_stored_chain : forall chain k, ilookup k (relay_index true (stored true chain)) = ilookup k (stored true chain).
+Proof. exact relay_of_stored_chain. Qed.
+
+Theorem C17_relay_drops_inherited_refuted :
+  let t := stored true [([("c", 3)], FromStore); ([("a", 1)], FromStore)]%string%Z in
+  ilookup "a"%string t = Some 1%Z /\ ilookup "a"%string (relay_index false t) = None /\ ilookup "a"%string (relay_index true t) = Some 1%Z.
+Proof. exact relay_drops_inherited_refuted. Qed.
+
+Theorem C17_current_source_relay_keeps_inherited : partition_relay_keeps_inherited = Some true.
+Proof. exact partition_relay_keeps_inherited_ok. Qed.
+
 Example C17_witness :
   let chain := [([("b", 30); ("d", 40)], InProcess); ([("b", 3); ("c", 4)], FromStore); ([("a", 1); ("b", 2)], FromStore)]%string%Z in
   chain_ok chain /\ map (fun k => ilookup k (stored true chain)) ["a"; "b"; "c"; "d"; "e"]%string = [Some 1; Some 30; Some 4; Some 40; None]%Z
